@@ -3,6 +3,7 @@ package sim
 // E1 scenarios for C13 (one shared log) and C14 (merging from live logs).
 
 import (
+	"bytes"
 	"context"
 	"fmt"
 	"reflect"
@@ -53,6 +54,7 @@ type opDesc struct {
 	proxy   bool
 	bounded bool // Join with a size bound far above the merged size (must behave like the unbounded merge)
 	trunc   int  // > 0: Join with this (small) size bound, which may really truncate the log
+	iterUp  int  // Iterator: 0 default upper bound (the heads), 1 LTE hash, 2 LT hash
 	failAdd bool // the block write of this operation fails (disk error)
 }
 
@@ -148,7 +150,10 @@ func (w *e1World) name(h string) string {
 	if e, ok := w.reg[h]; ok {
 		return e.Payload
 	}
-	return "?" + h[len(h)-6:]
+	if len(h) > 6 {
+		return "?" + h[len(h)-6:]
+	}
+	return "?" + h
 }
 
 func (w *e1World) names_(hs []string) []string {
@@ -266,11 +271,22 @@ func (w *e1World) exec(t *task, tc *taskCtx, d opDesc) {
 			rec.set = append(rec.set, c.String())
 		}
 	case kToMultihash:
-		_, rec.err = l.ToMultihash(w.ctx)
+		var mc cid.Cid
+		mc, rec.err = l.ToMultihash(w.ctx)
+		if rec.err == nil {
+			rec.hash = mc.String()
+		}
 		rec.n = len(t.blocks)
 	case kIterator:
 		ch := make(chan iface.IPFSLogEntry, 4096)
-		rec.err = l.Iterator(&ipfslog.IteratorOptions{}, ch)
+		io := &ipfslog.IteratorOptions{}
+		switch d.iterUp {
+		case 1:
+			io.LTE = []cid.Cid{d.hash}
+		case 2:
+			io.LT = []cid.Cid{d.hash}
+		}
+		rec.err = l.Iterator(io, ch)
 		if rec.err == nil {
 			for e := range ch {
 				rec.seq = append(rec.seq, e.GetHash().String())
@@ -300,11 +316,16 @@ type e1Config struct {
 
 func genE1(r *Run, prop string) (*e1World, *e1Config) {
 	w := &e1World{r: r, st: NewStore(), reg: map[string]*MEntry{}, ctx: context.Background()}
-	cfg := &e1Config{prop: prop, shared: prop != "C14"}
+	cfg := &e1Config{prop: prop, shared: prop != "C14" && prop != "C17"}
 	w.byHash = r.Choose("ordering", 2) == 0
 	cfg.nlogs = 2 + r.Choose("nlogs", 2)
 	ws := E1Writers()
 	sameWriter := r.Choose("same-writer", 4) == 0
+	if prop == "C17" {
+		// replicas of ONE writer, starting empty, drawing payloads from two values: they produce identical
+		// entries and manifests at overlapping times, which is what concurrent block writes have to survive
+		sameWriter = true
+	}
 	for i := 0; i < cfg.nlogs; i++ {
 		o := &ipfslog.LogOptions{ID: "L", AccessController: e1Controller{}, Concurrency: uint([]int{0, 0, 1, 2}[r.Choose("log-concurrency", 4)])}
 		if w.byHash {
@@ -321,6 +342,9 @@ func genE1(r *Run, prop string) (*e1World, *e1Config) {
 		w.logs = append(w.logs, l)
 		w.names = append(w.names, fmt.Sprintf("log%c", 'A'+i))
 		n0 := r.Choose("init-entries", 4)
+		if prop == "C17" {
+			n0 = 0
+		}
 		for j := 0; j < n0; j++ {
 			e, err := l.Append(w.ctx, []byte(fmt.Sprintf("%c%d", 'a'+i, j)), nil)
 			if err != nil {
@@ -345,7 +369,7 @@ func genE1(r *Run, prop string) (*e1World, *e1Config) {
 		}
 	}
 	// C13 (in a third of its scenarios) and the concurrent sub-batches of C15/C16: merges with small size bounds
-	truncating := prop == "C15" || prop == "C16" || (prop == "C13" && r.Choose("with-truncation", 3) == 0)
+	truncating := prop == "C15" || prop == "C16" || ((prop == "C13" || prop == "C14") && r.Choose("with-truncation", 3) == 0)
 	cfg.ntasks = 2 + r.Choose("ntasks", 3)
 	maxOps := 4
 	if Tier == "thorough" {
@@ -359,8 +383,10 @@ func genE1(r *Run, prop string) (*e1World, *e1Config) {
 		for k := 0; k < nops; k++ {
 			var d opDesc
 			if cfg.shared {
-				x := r.Choose("kind13", 30)
+				x := r.Choose("kind13", 32)
 				switch {
+				case x >= 30 || (x >= 27 && prop == "C13"):
+					d.kind = kSetIdentity
 				case x < 8:
 					d.kind = kAppend
 				case x < 12:
@@ -377,7 +403,8 @@ func genE1(r *Run, prop string) (*e1World, *e1Config) {
 				case x >= 18 && x < 22 && prop == "C16":
 					d.kind = kJoin
 				default:
-					d.kind = kValues + (x-18)%(kJoinBad-kValues)
+					// one of the read accessors, manifest publication or identity change (all 13 of them)
+					d.kind = kValues + r.Choose("read-kind", kJoinBad-kValues)
 				}
 				if d.kind == kJoin {
 					d.src = 1 + r.Choose("join-src", cfg.nlogs-1)
@@ -386,6 +413,8 @@ func genE1(r *Run, prop string) (*e1World, *e1Config) {
 				x := r.Choose("kind14", 22)
 				d.target = r.Choose("target", cfg.nlogs)
 				switch {
+				case prop == "C17" && x >= 15 && x < 20:
+					d.kind = kToMultihash
 				case x >= 20:
 					d.kind = kJoinBad // a merge that validation refuses is a merge too: it must come back
 				case x < 7:
@@ -409,13 +438,26 @@ func genE1(r *Run, prop string) (*e1World, *e1Config) {
 				d.trunc = 1 + r.Choose("trunc-size", 5)
 				cfg.trunc = true
 			}
+			if truncating {
+				// a source that may be cut while it is being read must be read in one critical section, which the
+				// library can only do for its own log type: no wrapper between the logs here
+				d.proxy = false
+			}
+			if d.kind == kIterator {
+				d.iterUp = r.Choose("iter-upper", 3)
+			}
 			d.failAdd = (d.kind == kAppend || d.kind == kToMultihash) && r.Choose("fail-add", 6) == 0
 			d.pc = 1 << uint(r.Choose("pc", 4))
 			d.writer = r.Choose("writer", len(ws))
 			pseq++
 			d.payload = []byte(fmt.Sprintf("t%d-%d", ti, pseq))
+			if prop == "C17" {
+				d.payload = []byte(fmt.Sprintf("dup%d", r.Choose("dup-payload", 2)))
+			}
 			if len(known) > 0 {
 				d.hash = known[r.Choose("known", len(known))]
+			} else if d.kind == kIterator {
+				d.iterUp = 0
 			} else if d.kind == kGet || d.kind == kHas {
 				d.kind = kLen
 			}
@@ -586,6 +628,10 @@ func (w *e1World) evaluate(s *sched, cfg *e1Config) {
 				}
 			}
 		}
+		// an identity change is atomic: the log's clock carries the key of the identity it signs with
+		if l.Identity != nil && l.Clock != nil && !bytes.Equal(l.Clock.GetID(), l.Identity.PublicKey) {
+			r.Violate(prop+":torn-identity", "%s ends signing with identity %x.. while its clock carries %x..", w.names[i], l.Identity.PublicKey[:6], l.Clock.GetID()[:6])
+		}
 		// at quiescence every read surface agrees with the entries the log holds
 		quiet := func(what string, got []string) {
 			if hasDup(got) {
@@ -685,6 +731,60 @@ func (w *e1World) evaluate(s *sched, cfg *e1Config) {
 			}
 		}
 	}
+	// what an operation returned is in the store: the block of an appended entry, or of a published manifest,
+	// was written (by this task or by another one writing the same block) before the operation returned,
+	// and every entry block only after the blocks it links to
+	written := map[string]int{}
+	for _, t := range s.tasks {
+		for k, b := range t.blocks {
+			c := b.Cid().String()
+			if at, ok := written[c]; !ok || t.blockAt[k] < at {
+				written[c] = t.blockAt[k]
+			}
+		}
+	}
+	for _, o := range all {
+		if o.err != nil || o.hash == "" || (o.d.kind != kAppend && o.d.kind != kToMultihash) || o.d.failAdd {
+			continue
+		}
+		at, ok := written[o.hash]
+		if !ok {
+			if c, err := cid.Decode(o.hash); err == nil && w.st.Has(c) {
+				continue // written during the setup
+			}
+			r.Violate(prop+":acknowledged-before-written", "%s on %s returned %s, whose block was never written", kindNames[o.d.kind], w.names[o.d.target], w.name(o.hash))
+		}
+		if at > o.ret {
+			r.Violate(prop+":acknowledged-before-written", "%s on %s returned %s at step %d, its block reached the store at step %d", kindNames[o.d.kind], w.names[o.d.target], w.name(o.hash), o.ret, at)
+		}
+	}
+	for _, t := range s.tasks {
+		for k, b := range t.blocks {
+			for _, l := range b.Links() {
+				lc := l.Cid.String()
+				if at, ok := written[lc]; ok && at > t.blockAt[k] {
+					r.Violate(prop+":closure", "block %s was written at step %d, before the block %s it links to (step %d)", w.name(b.Cid().String()), t.blockAt[k], w.name(lc), at)
+				} else if !ok && !w.st.Has(l.Cid) {
+					r.Violate(prop+":closure", "block %s was written but the block %s it links to never was", w.name(b.Cid().String()), w.name(lc))
+				}
+			}
+		}
+	}
+	// a size-bounded merge that returned success has cut: the state it leaves holds at most that many entries
+	for _, o := range all {
+		if o.d.kind != kJoin || o.err != nil || o.size < 0 {
+			continue
+		}
+		var last *st
+		for k := range seqs[o.d.target] {
+			if seqs[o.d.target][k].op == o {
+				last = &seqs[o.d.target][k]
+			}
+		}
+		if last != nil && len(last.set) > o.size {
+			r.Violate(prop+":truncation", "%s.Join(size %d) returned leaving %d entries in the log (no cut was made: %v)", w.names[o.d.target], o.size, len(last.set), !last.trunc)
+		}
+	}
 	for _, o := range all {
 		if o.d.kind == kAppend && o.d.failAdd {
 			r.Probe("append-with-failing-block-write")
@@ -761,6 +861,10 @@ func (w *e1World) evaluate(s *sched, cfg *e1Config) {
 				cs = append(cs, fmt.Sprintf("%v", w.names_(sortedKeys(c))))
 			}
 			return strings.Join(cs, " | ")
+		}
+		if o.d.kind == kIterator && o.d.iterUp != 0 {
+			w.checkBoundedIterator(prop, i, o, cands, describe)
+			continue
 		}
 		switch o.d.kind {
 		case kValues, kIterator, kSnapshot:
@@ -846,6 +950,69 @@ func (w *e1World) evaluate(s *sched, cfg *e1Config) {
 }
 
 func seqs0(x interface{}) interface{} { return x }
+
+// checkBoundedIterator: Iterator with an inclusive or exclusive upper bound on a shared log: an error only
+// if some state during the call did not hold the bound; otherwise exactly the causal past of the bound
+// (inside the log) in one of the states the log had during the call, newest first, no duplicates.
+func (w *e1World) checkBoundedIterator(prop string, i int, o *opRec, cands []map[string]bool, describe func() string) {
+	r := w.r
+	b := o.d.hash.String()
+	what := fmt.Sprintf("Iterator(%s %s) on %s", [...]string{"", "LTE", "LT"}[o.d.iterUp], w.name(b), w.names[i])
+	r.Probe("concurrent-iterator-with-upper-bound")
+	if o.err != nil {
+		for _, c := range cands {
+			if !c[b] {
+				return
+			}
+			if e, ok := w.reg[b]; ok && o.d.iterUp == 2 {
+				// an exclusive bound starts from the bound's predecessors: in a log that a size-bounded merge has
+				// cut they may be gone, and whether that is an empty range or an error is not specified
+				for _, nx := range e.Next {
+					if !c[nx] {
+						return
+					}
+				}
+			}
+		}
+		r.Violate(prop+":read-error", "%s failed although the log held the bound (and its predecessors) during the whole call: %v", what, o.err)
+	}
+	if hasDup(o.seq) {
+		r.Violate(prop+":read-duplicate", "%s lists an entry twice: %v", what, w.names_(o.seq))
+	}
+	got := map[string]bool{}
+	for _, h := range o.seq {
+		got[h] = true
+	}
+	for _, c := range cands {
+		if !c[b] {
+			continue
+		}
+		starts := []string{b}
+		if o.d.iterUp == 2 {
+			starts = nil
+			if e, ok := w.reg[b]; ok {
+				starts = e.Next
+			}
+		}
+		want := map[string]bool{}
+		stack := append([]string(nil), starts...)
+		for len(stack) > 0 {
+			h := stack[len(stack)-1]
+			stack = stack[:len(stack)-1]
+			if want[h] || !c[h] {
+				continue
+			}
+			want[h] = true
+			if e, ok := w.reg[h]; ok {
+				stack = append(stack, e.Next...)
+			}
+		}
+		if setEq(want, got) {
+			return
+		}
+	}
+	r.Violate(prop+":read-state", "%s returned %v, which is the causal past of the bound in no state the log had during the call (%s)", what, w.names_(o.seq), describe())
+}
 
 // reachedBefore: the entries of src reachable from src's heads along predecessors inside src, not
 // walking through (or taking) entries that known already holds.
